@@ -66,17 +66,45 @@ class BM:
 
     # ---- derived
     def state_fields(self):
-        """backend state fields (those mapped to owner fields)."""
-        return [f for f, o in (self.fmap or {}).items() if not o.startswith("<")]
+        """backend state leaves (dotted paths) of the fields mapped to owner fields; a field that
+        borrows a whole state struct contributes one leaf per byte-array member."""
+        from .modes import flatten_value
+        out = []
+        for f, o in (self.fmap or {}).items():
+            if o.startswith("<"):
+                continue
+            iv = (self.init or {}).get(o.split(".")[0])
+            sub = iv
+            for part in o.split(".")[1:]:
+                sub = sub[2].get(part) if sub is not None and sub[0] == "struct" else None
+            if sub is not None and sub[0] == "struct":
+                out.extend(f + "." + leaf for leaf in flatten_value(sub))
+            else:
+                out.append(f)
+        return out
+
+    def owner_path(self, leaf):
+        """owner-side dotted path of a backend state leaf."""
+        first, _, rest = leaf.partition(".")
+        base = self.fmap[first]
+        return base + ("." + rest if rest else "")
+
+    def init_leaf(self, leaf):
+        v = None
+        cur = self.init
+        parts = self.owner_path(leaf).split(".")
+        v = cur.get(parts[0])
+        for part in parts[1:]:
+            v = v[2].get(part) if v is not None and v[0] == "struct" else None
+        return v
 
     def R(self, W):
-        """representation of public chaining value W: {backend field: BStr}."""
+        """representation of public chaining value W: {backend state leaf: BStr}."""
         out = {}
         for bf in self.state_fields():
-            of = self.fmap[bf]
-            v = self.init.get(of)
+            v = self.init_leaf(bf)
             if v is None or v[0] != "bytes":
-                raise Undecided("owner field %s is not initialised to bytes by inner_iv_init" % of)
+                raise Undecided("owner field %s is not initialised to bytes by inner_iv_init" % self.owner_path(bf))
             out[bf] = T.bsubst(v[1], {"IV": W}, None, self.F)
         return out
 
@@ -277,10 +305,18 @@ def check_export(rep, fb, crates=None, rule_prefix="ivstate"):
             wlen = T.VARLEN["IV"]
             T.declare_var("W", wlen)
             W = T.bvar("W")
-            env = {}
+            from .modes import flatten_value
+            flat_init = {}
             for of, v in bm.init.items():
                 if v[0] == "bytes":
-                    env["self." + of] = T.bsubst(v[1], {"IV": W}, None, F)
+                    flat_init[of] = v
+                elif v[0] == "struct":
+                    for leaf, lv in flatten_value(v).items():
+                        if lv[0] == "bytes":
+                            flat_init[of + "." + leaf] = lv
+            env = {}
+            for of, v in flat_init.items():
+                env["self." + of] = T.bsubst(v[1], {"IV": W}, None, F)
             ex = bm.export
             if ex[0] != "bytes":
                 raise Undecided("iv_state returns %s" % ex[0])
@@ -288,9 +324,7 @@ def check_export(rep, fb, crates=None, rule_prefix="ivstate"):
             rep.ob(rule_prefix + ".export-public", inst, T.bequal(got, W, F), "iv_state of a freshly initialised object is the public chaining value (IV)", loc,
                    computed=T.bshow(got), expected="W")
             # resume: init(export(st)) == st for every state st
-            for of, v in bm.init.items():
-                if v[0] != "bytes":
-                    continue
+            for of, v in flat_init.items():
                 T.declare_var("self." + of, T.blen(v[1]))
                 back = T.bsubst(v[1], {"IV": ex[1]}, None, F)
                 rep.ob(rule_prefix + ".resume", inst + "." + of, T.bequal(back, T.bvar("self." + of), F), "inner_iv_init(iv_state(st)) reproduces st", loc,
@@ -327,7 +361,7 @@ def check_dependence(rep, fb, crates=None, rule_prefix="dep"):
             pub_out = T.bsubst(out[1], env, None, F)
             if bm.export is None or "export" in bm.err:
                 raise Undecided("no IvState export to express the next public chaining value")
-            env2 = {"self." + bm.fmap[f]: T.bsubst(st[f][1], env, None, F) for f in fields}
+            env2 = {"self." + bm.owner_path(f): T.bsubst(st[f][1], env, None, F) for f in fields}
             pub_next = T.bsubst(bm.export[1], env2, None, F)
         except Undecided as e:
             rep.undecided(rule_prefix + ".kinds", inst, str(e), loc)
@@ -434,8 +468,8 @@ def check_roundtrip(rep, fb, crates=None, rule_prefix="inv"):
                    computed=T.bshow(back), expected="in")
             # equal public chaining values afterwards: export(enc.state') == export(dec.state')
             if e.owner.export is not None and dd.owner.export is not None and "export" not in e.err and "export" not in dd.err:
-                xe = T.bsubst(e.export[1], {"self." + e.fmap[f]: T.bsubst(es[f][1], env_e, None, F) for f in e.state_fields()}, None, F)
-                xd = T.bsubst(dd.export[1], {"self." + dd.fmap[f]: T.bsubst(ds[f][1], env_d, None, F) for f in dd.state_fields()}, None, F)
+                xe = T.bsubst(e.export[1], {"self." + e.owner_path(f): T.bsubst(es[f][1], env_e, None, F) for f in e.state_fields()}, None, F)
+                xd = T.bsubst(dd.export[1], {"self." + dd.owner_path(f): T.bsubst(ds[f][1], env_d, None, F) for f in dd.state_fields()}, None, F)
                 rep.ob(rule_prefix + ".step.state", inst, T.bequal(xe, xd, F), "encryptor and decryptor report equal IV states after corresponding data", loc,
                        computed=T.bshow(xd), expected=T.bshow(xe))
             else:
